@@ -266,4 +266,60 @@ theorem C03_paths_agree (cfg : Cfg) (hp : cfg.pred = Option.none) (t : PyObj) (h
   · rw [e, hps]; exact paths_enc _ w hk _ _
   · rw [hps, STree.pathsT_length _ [] hk, hl]
 
+/-! ### `all_leaves` -/
+
+/-- **`all_leaves(xs)` holds exactly when every element is a leaf**: `True` iff `tree_is_leaf` is `True` for every
+element (every list, predicate, registry) -/
+theorem C03_all_leaves_true (cfg : Cfg) : ∀ xs : List PyObj,
+    allLeaves cfg xs = .ok true ↔ ∀ x ∈ xs, isLeaf cfg x = .ok true
+  | [] => by simp [allLeaves]
+  | x :: xs => by
+      have ih := C03_all_leaves_true cfg xs
+      simp only [allLeaves, List.mem_cons, forall_eq_or_imp]
+      cases h : isLeaf cfg x with
+      | error e => simp
+      | ok b => cases b <;> simp [ih]
+
+/-- it is `False` exactly when the first element that is not accepted is a non-leaf (everything before it is a leaf and its
+own test does not raise); an exception raised by the predicate on the way propagates -/
+theorem C03_all_leaves_false (cfg : Cfg) : ∀ xs : List PyObj,
+    allLeaves cfg xs = .ok false ↔
+      ∃ pre x post, xs = pre ++ x :: post ∧ (∀ y ∈ pre, isLeaf cfg y = .ok true) ∧ isLeaf cfg x = .ok false
+  | [] => by simp [allLeaves]
+  | x :: xs => by
+      have ih := C03_all_leaves_false cfg xs
+      simp only [allLeaves]
+      cases h : isLeaf cfg x with
+      | error e =>
+        simp only [reduceCtorEq, false_iff, not_exists, not_and]
+        intro pre y post he hpre hy
+        cases pre with
+        | nil => simp at he; obtain ⟨rfl, _⟩ := he; rw [h] at hy; simp at hy
+        | cons p pre =>
+          simp at he; obtain ⟨rfl, _⟩ := he
+          have := hpre x (by simp); rw [h] at this; simp at this
+      | ok b =>
+        cases b with
+        | false =>
+          simp only [true_iff]
+          exact ⟨[], x, xs, rfl, by simp, h⟩
+        | true =>
+          simp only [ih]
+          constructor
+          · rintro ⟨pre, y, post, rfl, hpre, hy⟩
+            refine ⟨x :: pre, y, post, rfl, ?_, hy⟩
+            intro z hz
+            simp only [List.mem_cons] at hz
+            rcases hz with rfl | hz
+            · exact h
+            · exact hpre z hz
+          · rintro ⟨pre, y, post, he, hpre, hy⟩
+            cases pre with
+            | nil => simp at he; obtain ⟨rfl, _⟩ := he; rw [h] at hy; simp at hy
+            | cons p pre =>
+              simp at he
+              obtain ⟨rfl, rfl⟩ := he
+              exact ⟨pre, y, post, rfl, fun z hz => hpre z (by simp [hz]), hy⟩
+
+
 end Optree
